@@ -23,6 +23,14 @@ Three streams, implementation = the real pypyr of $PYPYR_REPO run in this proces
     (`load_pipeline_from_file`, uncached) / what config was; run k of an entry must reproduce run 1:
     probe trace (context at every `vobs` probe step), outcome, final context.
 
+(b2) ORDER INDEPENDENCE OVER DIRECTORY LAYOUTS (part of the history stream, no model).  2-4 root
+    pipelines in different directories pype children by relative names that contain sub-directories,
+    '+', '..'; the child file exists next to the parent, in the cwd, in cwd/pipelines or nowhere
+    (cwd pointed at the scratch tree by the harness).  Every root runs solo in a fresh cache, then the
+    roots run in permutations and in a history with repeats, caches on: each run must equal its solo
+    (trace, outcome, final context); after every history the definition the loader cache returns for
+    every (parent, name) request equals a fresh load of the file pypyr's search order prescribes.
+
 (c) THREADS.  2-3 runs on real threads, each with its own context, hand-off at the probe steps
     (threading.Event scheduler of harness/impl_c13.py, no sleeps), several interleavings per pipeline
     set, cold and warm caches: every run must reproduce its solo trace / outcome / final context and
@@ -31,7 +39,10 @@ Three streams, implementation = the real pypyr of $PYPYR_REPO run in this proces
 from __future__ import annotations
 
 import copy
+import json
 import os
+import shutil
+import sys
 
 from .. import common
 from .. import impl_c12 as I
@@ -485,10 +496,232 @@ def check_threads(env, res, sb, case, tag='replay'):
 
 
 # ---------------------------------------------------------------------------------------------
+# (b2) order independence over directory layouts (history stream, from the property text)
+# ---------------------------------------------------------------------------------------------
+# Root pipelines in different directories pype children by RELATIVE names that may contain
+# sub-directories, '+', '..'; a child file may exist next to its parent, in the cwd, in cwd/pipelines,
+# or nowhere (the run then fails, which is an outcome like any other). Every root is run solo in a
+# fresh cache, then all roots in several orders with the caches on: each root's (probe trace, outcome,
+# final context) must be the same in every order and equal to its solo result; after every order the
+# definition the loader cache hands out for each (parent, name) request must be deep-equal to a fresh
+# load of the file that pypyr's own search order (`get_pipeline_path`) prescribes for that request.
+
+ROOT_DIRS = ['proj', 'proj/sub', 'proj/a', 'proj/a+b', 'proj/shared', 'other', 'proj/sub/deep']
+CHILD_NAMES = ['x', 'sub/x', 'report', 'shared/report', 'b+c', 'c', 'a+b/c', '../x', 'sub/../x', 'deep/x', 'sub/deep/x',
+               'x+y', 'a/b+c', './x']
+GRAND_NAMES = ['g', 'sub/g', 'g+h', '../g', 'shared/g']       # files with these names never pype further (no cycles)
+
+
+def child_yaml(marker, grand=None):
+    steps = ['  - ' + I.yv({'name': 'pypyr.steps.append', 'in': {'append': {'list': 'seen', 'addMe': marker}}})]
+    if grand:
+        steps.append('  - ' + I.yv({'name': 'pypyr.steps.pype', 'in': {'pype': {'name': grand}}}))
+    steps.append('  - vobs')
+    return 'steps:\n' + '\n'.join(steps) + '\n'
+
+
+def root_yaml(marker, children):
+    steps = ['  - ' + I.yv({'name': 'pypyr.steps.append', 'in': {'append': {'list': 'seen', 'addMe': marker}}}), '  - vobs']
+    for c in children:
+        steps.append('  - ' + I.yv({'name': 'pypyr.steps.pype', 'in': {'pype': {'name': c}}}))
+        steps.append('  - vobs')
+    return 'steps:\n' + '\n'.join(steps) + '\n'
+
+
+def norm_rel(p):
+    return os.path.normpath(p).replace(os.sep, '/')
+
+
+def orders_case(rng, roots, files, norders):
+    """roots: [(dir, name, [child names])], files: {relpath-without-.yaml: grandchild name or None}."""
+    import itertools
+    out_files, root_entries = {}, []
+    for d, n, children in roots:
+        rel = f'{d}/{n}'
+        out_files[rel + '.yaml'] = root_yaml(rel, children)
+        root_entries.append({'name': rel, 'dir': d, 'children': list(children), 'abs': rng.random() < 0.3})
+    for rel, grand in files.items():
+        out_files.setdefault(rel + '.yaml', child_yaml(rel, grand))
+    perms = list(itertools.permutations(range(len(roots))))
+    rng.shuffle(perms)
+    orders = [list(p) for p in perms[:norders]]
+    if len(roots) >= 2:       # a history with repeats
+        orders.append([rng.randrange(len(roots)) for _ in range(rng.randint(3, 5))])
+    return {'kind': 'orders', 'files': out_files, 'grand': {k: v for k, v in files.items() if v}, 'roots': root_entries,
+            'orders': orders}
+
+
+def order_cases(env):
+    rng = env.rng
+    # directed: the sub-directory-in-the-name shape (P pypes 'shared/report', P/shared pypes 'report', neither file
+    # next to its parent), the '+' shape of F5, '..' names, a file in cwd/pipelines only
+    yield orders_case(rng, [('proj', 'nightly', ['shared/report']), ('proj/shared', 'weekly', ['report'])],
+                      {'report': None, 'shared/report': None}, 2), 'directed:subdir-in-name'
+    yield orders_case(rng, [('proj/a', 'r1', ['b+c']), ('proj/a+b', 'r2', ['c']), ('proj', 'r3', ['a+b/c', 'a/b+c'])],
+                      {'b+c': None, 'c': None, 'a+b/c': None, 'proj/a/b+c': None}, 6), 'directed:plus-in-name'
+    yield orders_case(rng, [('proj/sub', 'r1', ['../x', 'x']), ('proj', 'r2', ['x', 'sub/x', 'sub/../x']), ('other', 'r3', ['x'])],
+                      {'x': None, 'proj/x': 'deep/x', 'pipelines/sub/x': None, 'deep/x': None, 'proj/deep/x': None}, 6), \
+        'directed:dotdot-and-pipelines-dir'
+    yield orders_case(rng, [('proj', 'r1', ['sub/x']), ('proj/sub', 'r2', ['x']), ('proj/sub', 'r3', ['missing'])],
+                      {'sub/x': 'g', 'x': None, 'pipelines/x': None, 'g': None, 'sub/g': None, 'pipelines/sub/g': None}, 6), 'directed:grandchild-and-missing'
+    for _ in range(env.n(22, 300)):
+        nroots = rng.randint(2, 4)
+        roots, files = [], {}
+        dirs = rng.sample(ROOT_DIRS, rng.randint(2, min(4, len(ROOT_DIRS))))
+        names = rng.sample(CHILD_NAMES, rng.randint(2, 5))
+        for j in range(nroots):
+            d = rng.choice(dirs)
+            children = [rng.choice(names) for _ in range(rng.randint(1, 3))]
+            roots.append((d, f'r{j}', children))
+            for c in children:
+                # candidate locations of the child file: next to the parent, cwd, cwd/pipelines
+                cands = [norm_rel(f'{d}/{c}'), norm_rel(c), norm_rel(f'pipelines/{c}')]
+                cands = [x for x in cands if not x.startswith('..')]
+                for x in cands:
+                    if rng.random() < 0.4:
+                        g = rng.choice(GRAND_NAMES) if rng.random() < 0.25 else None
+                        files.setdefault(x, g)
+                        if files[x] == g and g:
+                            here = os.path.dirname(x)
+                            for y in (norm_rel(f'{here}/{g}'), norm_rel(g), norm_rel(f'pipelines/{g}')):
+                                if not y.startswith('..') and rng.random() < 0.45:
+                                    files.setdefault(y, None)
+        yield orders_case(rng, roots, files, env.n(3, 8)), "random"
+
+
+def write_layout(cwd, files):
+    for rel, text in files.items():
+        f = cwd / rel
+        f.parent.mkdir(parents=True, exist_ok=True)
+        f.write_text(text)
+
+
+def run_root(sb, cwd, root):
+    import pypyr.pipelinerunner as pr
+    tr = I.SoloTrace()
+    sb.vobs.HOOK = tr.hook
+    name = str(cwd / root['name']) if root.get('abs') else root['name']
+    try:
+        try:
+            ctx = pr.run(name, dict_in={'seen': ['start'], 'who': root['name']})
+            outcome = 'ok'
+        except Exception as e:    # noqa: BLE001 - the run's own outcome
+            ctx, outcome = None, {'err': common.exc_name(e), 'msg': str(e).replace(str(cwd), '<cwd>')}
+    finally:
+        sb.vobs.HOOK = None
+    return {'trace': [I.norm(x) for x in tr.trace], 'outcome': outcome,
+            'final': I.norm(I.wire(dict(ctx))) if ctx is not None else None}
+
+
+def requests_of(cwd, case):
+    """Every (parent dir, child name) request the roots make, transitively, found with pypyr's own
+    search function. Returns [(parent Path, name, resolved Path or None)]."""
+    from pypyr.loaders.file import get_pipeline_path
+    from pypyr.errors import PipelineNotFoundError
+    out, seen = [], set()
+    todo = [(cwd / r['dir'], c) for r in case['roots'] for c in r['children']]
+    while todo:
+        parent, name = todo.pop()
+        if (str(parent), name) in seen:
+            continue
+        seen.add((str(parent), name))
+        try:
+            path = get_pipeline_path(pipeline_name=name, parent=parent)
+        except PipelineNotFoundError:
+            path = None
+        out.append((parent, name, path))
+        if path is not None:
+            rel = str(path.relative_to(cwd))[:-5] if str(path).startswith(str(cwd)) else None
+            g = case.get('grand', {}).get(rel)
+            if g:
+                todo.append((path.parent, g))
+    return out
+
+
+def check_cached_requests(sb, cwd, case, when):
+    """The definition the cache hands out for (parent, name) is what the loader produces for it."""
+    from pypyr.cache.loadercache import loader_cache
+    from pypyr.loaders.file import load_pipeline_from_file
+    from pypyr.errors import PipelineNotFoundError
+    loader = loader_cache.get_pype_loader(None)
+    out = []
+    for parent, name, path in requests_of(cwd, case):
+        try:
+            got = I.wire(loader.get_pipeline(name=name, parent=parent).pipeline)
+        except PipelineNotFoundError:
+            got = None
+        want = I.wire(load_pipeline_from_file(path).pipeline) if path is not None else None
+        if (got is None) != (want is None) or (got is not None and diff_path(want, got) is not None):
+            rel = str(path.relative_to(cwd)) if path is not None else 'no file'
+            out.append((f'{when}: the cached definition for (parent={parent.relative_to(cwd)}, name={name}) is not what the '
+                        f'loader produces for that request ({rel})',
+                        {'monitor': 'cached-definition-differs-from-loader', 'site': 'pipeline-cache'}))
+            break
+    return out
+
+
+def check_orders(env, res, sb, case, tag='replay'):
+    import pypyr.moduleloader as ml
+    sb.ensure_vobs()
+    cwd = sb.scratch()
+    saved_path, saved_known = list(sys.path), set(getattr(ml, '_known_dirs', ()))
+    found = []
+    nruns = 0
+    try:
+        write_layout(cwd, case['files'])
+        with I.CwdControl(cwd) as cc:
+            if not cc.ok:
+                res.count('orders:skipped-cannot-control-cwd')
+                return
+            solo = []
+            for root in case['roots']:
+                sb.admin.clear_all()
+                solo.append(run_root(sb, cwd, root))
+                found += check_cached_requests(sb, cwd, case, f"after the solo run of {root['name']}")
+                nruns += 1
+            for order in case['orders']:
+                sb.admin.clear_all()
+                hist = []
+                for ri in order:
+                    o = run_root(sb, cwd, case['roots'][ri])
+                    hist.append(case['roots'][ri]['name'])
+                    nruns += 1
+                    for what in ('trace', 'outcome', 'final'):
+                        if canon(solo[ri][what]) != canon(o[what]):
+                            found.append((
+                                f"{case['roots'][ri]['name']} run after {hist[:-1]} (same process, caches on) differs from its run "
+                                f"in a fresh cache in its {what}" + (f' at {diff_path(solo[ri][what], o[what])}: '
+                                                                     f'{json.dumps(o[what])[:160]} vs solo {json.dumps(solo[ri][what])[:160]}'
+                                                                     if what != 'outcome' else f': {o[what]} vs solo {solo[ri][what]}'),
+                                {'monitor': 'order-dependent', 'what': what}))
+                            break
+                found += check_cached_requests(sb, cwd, case, f'after the history {hist}')
+            sb.admin.clear_all()
+    finally:
+        sys.path[:] = saved_path
+        if hasattr(ml, '_known_dirs'):
+            ml._known_dirs.clear()
+            ml._known_dirs.update(saved_known)
+        shutil.rmtree(cwd, ignore_errors=True)
+    res.case(case)
+    res.count('orders:' + tag)
+    res.count('orders:runs', nruns)
+    res.count('orders:roots=' + str(len(case['roots'])))
+    for o in solo:
+        res.count('orders:solo-outcome:' + ('ok' if o['outcome'] == 'ok' else o['outcome']['err']))
+    seen = set()
+    for detail, sig in found:
+        if canon(sig) in seen:
+            continue
+        seen.add(canon(sig))
+        res.violation(case, detail, signature=sig, impl={'solo': [{'outcome': o['outcome'], 'final': o['final']} for o in solo]})
+
+
+# ---------------------------------------------------------------------------------------------
 # entry points
 # ---------------------------------------------------------------------------------------------
 
-CHECKERS = {'alias': check_alias, 'history': check_history, 'threads': check_threads}
+CHECKERS = {'alias': check_alias, 'history': check_history, 'orders': check_orders, 'threads': check_threads}
 
 
 def _run_cases(env, res, cases):
@@ -518,10 +751,10 @@ def run(env, res):
                 'random config.vars / shortcut with args and/or parser_args / list parser / dict_in), run once or twice, '
                 'every step observation compared with the Lean heap model: context deep value + shared objects reachable '
                 'by id(); (b) histories of 2-6 runs over 1-3 such pipelines, deep snapshots of every cached definition and '
-                'of config after every run, run k vs run 1; (c) 2-3 runs on real threads under 7-12 schedules per pipeline '
+                'of config after every run, run k vs run 1; (b2) 2-4 root pipelines in different directories pyping children by relative names with sub-directories, plus signs and dot-dot, child files next to the parent / in cwd / in cwd/pipelines / missing, cwd set by the harness: every root solo in a fresh cache, then permutations and a history with repeats with caches on, each run vs its solo run, cached definition per (parent, name) vs a fresh load of the file the search order prescribes; (c) 2-3 runs on real threads under 7-12 schedules per pipeline '
                 'set, cold and warm caches, each vs its solo run. non-trivial = distinct (pipelines, config, entries, '
                 'order, schedule)')
-    cases = list(alias_cases(env)) + list(history_cases(env)) + list(thread_cases(env))
+    cases = list(alias_cases(env)) + list(history_cases(env)) + list(order_cases(env)) + list(thread_cases(env))
     only = os.environ.get('C12_STREAMS')          # debugging / self-test: run a subset of the streams
     if only:
         cases = [c for c in cases if c[0]['kind'] in only.split(',')]
